@@ -1301,6 +1301,32 @@ class C11(Property):
         return [note]
 
     # ---- generators
+    def gen_perfect_square(self, rng, tier):
+        """scale='std' on a column whose sample variance is the square of a dyadic number (c-d, c, c+d in any order, with
+        missing values and rows after the window): the real stdev is exact there (theorem sqrt_exact_perfect_square)"""
+        j = rng.choice([0, 0, 1, 2, 3, 6, 10])
+        d = Fraction(rng.randint(1, 40), 2 ** j)
+        c = Fraction(rng.randint(-20, 20), rng.choice([1, 2, 4]))
+        col = [V(float(c - d), "f") if j or c.denominator > 1 else V(int(c - d)), V(float(c), "f") if j or c.denominator > 1 else V(int(c)),
+               V(float(c + d), "f") if j or c.denominator > 1 else V(int(c + d))]
+        for i in (2, 1):
+            k = rng.below(i + 1)
+            col[i], col[k] = col[k], col[i]
+        for _ in range(rng.below(3)):
+            col.insert(rng.below(len(col) + 1), rng.choice([None, NAN]))
+        using = rng.choice([None, len(col), len(col) + 2])
+        extra = [self.gen_number(rng, "int") for _ in range(rng.below(3))]
+        if extra and using is None:
+            using = len(col)
+        col = col + extra
+        kind = rng.choice(["scalar", "dense", "sparse"])
+        rows = col if kind == "scalar" else [[v] for v in col] if kind == "dense" else [[["a", v]] for v in col]
+        case = {"op": "scale", "kind": kind, "rows": rows, "scale": "std", "using": using, "via": "filter", "itype": "sim",
+                "shift": V(0) if kind == "sparse" else self.gen_param(rng, SHIFTS, [V(0), V(1)])}
+        if kind == "dense":
+            case["container"] = rng.choice(["tuple", "list"])
+        return case
+
     def gen_ragged(self, rng, tier):
         """dense contexts of DIFFERENT lengths (outside the quantifier; (A) only): a short / long row inside or after the
         window, columns with and without parameters"""
@@ -1461,6 +1487,8 @@ class C11(Property):
             return self.generate_seq(rng, tier)
         if rng.chance(0.05):
             return self.gen_ragged(rng, tier)
+        if rng.chance(0.03):
+            return self.gen_perfect_square(rng, tier)
         return self.generate_single(rng, tier)
 
     def generate_seq(self, rng, tier):
@@ -1684,6 +1712,14 @@ class C11(Property):
                     cs.append({"op": "scale", "kind": "dense", "container": "tuple", "rows": tab, "shift": sh, "scale": sc, "using": 1 if tab[0][0] is None else 2,
                                "via": "filter", "itype": "sim"})
                 cs.append({"op": "scale", "kind": "scalar", "rows": [None, NAN, n(3)], "shift": sh, "scale": sc, "using": 2, "via": "filter", "itype": "sim"})
+        # phase 4 (continued): scale_scalar_dense_mixed_counterexample / scale_scalar_dense_agree_iff replayed on the code
+        for tab in ([V("x"), n(3)], [V("x"), n(5), n(7)], [V("x"), None, n(3)], [n(3), V("x"), n(5)]):
+            for sh, sc in ((n(1), n(2)), (n(1), "iqr"), ("min", n(2))):
+                cs.append({"op": "scale", "kind": "scalar", "rows": tab, "shift": sh, "scale": sc, "using": None, "via": "filter", "itype": "sim", "agree": True})
+                cs.append({"op": "scale", "kind": "dense", "container": "tuple", "rows": [[v] for v in tab], "shift": sh, "scale": sc, "using": None, "via": "filter", "itype": "sim", "agree": True})
+        # phase 4 (continued): perfect-square variances (SqrtExact on the real stdev)
+        for tab in ([n(1), n(3), n(5)], [f(0), f(1.5), f(3)], [f(0.25), None, f(0.5), f(0.75)], [n(7), n(-5), n(1), NAN]):
+            cs.append({"op": "scale", "kind": "scalar", "rows": tab, "shift": "mean", "scale": "std", "using": None, "via": "filter", "itype": "sim"})
         # phase 4: ragged dense rows (outside the quantifier, (A) against scaleDenseE)
         for using in (None, 1, 2):
             for sh, sc in ((n(0), n(2)), ("min", "minmax"), (n(0), "std"), ("mean", "iqr")):
@@ -1923,6 +1959,18 @@ class C11(Property):
             fails += tref.fails
             tags += sorted(tref.tags)
             tags.append("twin:" + tk)
+        if case.get("agree") and kind == "scalar" and "out" in impl:
+            # scale_scalar_dense_agree_iff on the real code: scalar vs one-feature dense differ exactly when the first context is a
+            # string and the scalar path moves a number
+            dimpl = run_impl(dict(case, kind="dense", rows=[[v] for v in rows], container="tuple"))
+            same = "out" in dimpl and [o["v"] for o in impl["out"]] == [o["v"][0] for o in dimpl["out"]]
+            moved = any(not Ref.val_eq(o["v"], r) for o, r in zip(impl["out"], rows))
+            expect_same = (not is_str(rows[0])) or not moved
+            tags.append("agree:mixed-first-string" if is_str(rows[0]) else "agree:number-first")
+            tags.append("agree:" + ("same" if same else "differ"))
+            if same != expect_same:
+                fails.append(F("A", "scalar vs one-feature dense contexts: %s, theorem scale_scalar_dense_agree_iff says %s" % (
+                    "same" if same else "differ", "same" if expect_same else "differ"), "A:scale:agree-iff"))
         changed = "out" in impl and self.changed(case, impl)
         nontrivial = ref.demanded > 0 and changed
         if ref.demanded:
@@ -2076,6 +2124,31 @@ class C11(Property):
             sd = statistics.stdev([to_py(v) for v in wcol if is_num(v)])
             if pv > 0 and abs(Fraction(sd) ** 2 / pv - 1) > Fraction(1, 10 ** 12):
                 out.append(F("A", "statistics.stdev(%s)=%r is not the square root of the sample variance %s" % (xs, sd, pv), "A:stdev-not-sqrt"))
+            # phase 4: the routine stdev calls (statistics._float_sqrt_of_frac) against the model's pySqrtFrac / pySd
+            fs = getattr(statistics, "_float_sqrt_of_frac", None)
+            if fs is not None and "pysqrt" in ans and pv > 0:
+                num, den = ans["pysqrt"]
+                tags.append("pysqrt-checked")
+                if fs(pv.numerator, pv.denominator) != num / den:
+                    out.append(F("A", "statistics._float_sqrt_of_frac(%d,%d)=%r, model pySqrtFrac gives %d/%d" % (pv.numerator, pv.denominator, fs(pv.numerator, pv.denominator), num, den), "A:pysqrt"))
+                if sd != num / den:
+                    out.append(F("A", "statistics.stdev(%s)=%r, model pySd gives %d/%d" % (xs, sd, num, den), "A:pysd"))
+                for n2, m2 in ((pv.numerator << 131, pv.denominator), (pv.numerator, pv.denominator << 131), (pv.numerator * 3 << 112, pv.denominator * 5)):
+                    a2 = driver.ask({"op": "pysqrt", "n": n2, "m": m2})
+                    if fs(n2, m2) != a2["num"] / a2["den"]:
+                        out.append(F("A", "statistics._float_sqrt_of_frac(%d,%d)=%r, model %d/%d" % (n2, m2, fs(n2, m2), a2["num"], a2["den"]), "A:pysqrt:shifted"))
+                r = Fraction(math.isqrt(pv.numerator), math.isqrt(pv.denominator))
+                sh = ans.get("shift", 0)
+                if r * r == pv and not (sh < 0 and (r.numerator * 2 ** (-sh)) % r.denominator == 0):
+                    tags.append("sqrt:square-outside-hypothesis")     # e.g. (8/3)^2: r is no float, the theorem does not apply
+                elif r * r == pv:
+                    # SqrtExact (hypothesis of fit_eq_spec_q, proved for pySd by sqrt_exact_perfect_square): the real stdev is exact here
+                    tags.append("sqrt:perfect-square")
+                    psd = Fraction(ans["pysd"][0], ans["pysd"][1])
+                    if psd != r:
+                        out.append(F("C", "variance %s = (%s)^2 but the model's pySd is %s" % (pv, r, psd), "C:sqrt-exact"))
+                    if Fraction(sd) != r:
+                        out.append(F("A", "variance %s = (%s)^2 but statistics.stdev returns %r" % (pv, r, sd), "A:sqrt-exact"))
         return out
 
     def changed(self, case, impl):
